@@ -873,6 +873,11 @@ func (c *compiler) interpretTaskOptions(flow *flow, t *task, opts []ast.Expr) {
 		case "Instrument":
 			t.Instrument = c.compileInstrument(call)
 		case "Invoke":
+			if t.invokeType != nil {
+				// A second sentinel type would be left without a provider.
+				c.errf(c.nodePosition(opt), "cff.Invoke was already specified for this task")
+				continue
+			}
 			t.invokeType = c.compileInvoke(flow, call)
 		}
 	}
